@@ -157,3 +157,24 @@ package interp
 //@   exec-ensures continues: ret == next
 //@   exec-loop 1
 //@   step element-i-stored-at-its-index: rvIface(rvIndexOp(a, index[i])) == rvIface(v(f)) && rvInt(rvIndexOp(a, index[i])) == rvInt(v(f))
+
+// append(s, v1, ..., vk): the values are gathered, in order, and appended by ONE reflect.Append (the slice
+// grows once, to its final length: capacity and sharing are those of compiled Go); append(s, v) appends the
+// one value; append(s) is s.
+//@ func _append(n)
+//@   props C04
+//@   opt gen = true
+//@   opt safety = off
+//@   opt loops = havoc
+//@   opt fn-values = pure
+//@   opt opaque-calls = *
+//@   opt opaque-havoc = none
+//@   opt ignore-contracts = genValue, genValueAs, genValueInterface, genInterfaceWrapper
+//@   ints wrap
+//@   exec (f) (ret)
+//@   exec-ensures continues: ret == next
+//@   exec-ensures [path:l==2] no-value-appended: rvIface(destOf(n, f)) == rvIface(value(f))
+//@   exec-ensures [path:default] the-one-value-appended: rvIface(destOf(n, f)) == rvIface(rvAppend1Op(value(f), value0(f)))
+//@   exec-ensures [path:l>3;local:sl] one-append-of-all-the-values: rvIface(destOf(n, f)) == rvIface(rvAppendSpreadOp(value(f), sl)) && len(sl) == l
+//@   exec-loop 1
+//@   step value-i-gathered-at-position-i: sl[i] == v(f) && forall(k, 0, len(sl), k != i ==> sl[k] == old(sl[k]))
